@@ -293,7 +293,9 @@ def check_C13(tier):
     backends = ALL_BACKENDS if thorough else ALL_BACKENDS[:3]
     rng = random.Random(common.seed() + 13)
     if not thorough:
-        backends = backends + [rng.choice(ALL_BACKENDS[3:])]
+        # the source-text archives always (their entries are read back through the import system, and the names of
+        # staging directories meet that encoding), plus one of the remaining configurations
+        backends = backends + ['dir-py', 'file-py'] + [rng.choice([b for b in ALL_BACKENDS[3:] if b not in ('dir-py', 'file-py')])]
     root = common.scratch('fs-crash')
     import itertools
     counter = itertools.count()
